@@ -8,12 +8,12 @@ TECH="deterministic simulation with fault injection: seeded search over schedule
 claimed = {
  "C03": dict(level="exploration", ref="§5 C03",
    text="Seeded search over interleavings of attach / stop / stream-end (Close, Unregist, UnregistAll, replacement, idle-close job) and the delivery and conversion goroutines of the real media package; oracle at quiescence: every attached consumer of an ended stream (or a stopped one) was closed, count 0 and never negative, no delivery/conversion goroutine left. Evidence, not proof: a clean batch samples the schedule space.",
-   note="Trusted: Go runtime + testing/synctest fake clock, the token scheduler (harness/sim), the placement of schedule points (code between two points is atomic for the search), the simsched stand-in for the cnotch/scheduler engine. Consumer transports are recording stubs at media level."),
+   note="Trusted: Go runtime + testing/synctest fake clock, the token scheduler (harness/sim), the placement of schedule points (code between two points is atomic for the search), the simsched stand-in for the cnotch/scheduler engine. Consumer transports are recording stubs in the media family; the service family runs the real RTSP/TCP, RTSP/UDP, ws-rtsp, WSP, HTTP-FLV and WebSocket-FLV consumers against six end causes (one known finding: replacement keeps consumers, known_findings.json)."),
 }
 claimed.update({
  "C01": dict(level="exploration", ref="§5 C01",
    text="Seeded search over interleavings of one publisher, 1-4 attaching/detaching consumers (RTP with and without GOP replay, FLV) and their delivery goroutines on the real media package; history-based oracle per consumer (must/may sets from invoke/return stamps): published order, byte identity, at most once (replay included), complete after the attach returned. Evidence, not proof.",
-   note="Trusted: Go runtime + synctest, token scheduler, schedule-point placement; transports are recording stubs at media level (service-level leg: see DESIGN.md)."),
+   note="Trusted: Go runtime + synctest, token scheduler, schedule-point placement; transports are recording stubs in the media family; the service family reads through the real RTSP/TCP, RTSP/UDP, ws-rtsp, WSP, HTTP-FLV and WebSocket-FLV consumers (one known finding: the tail of a stream stays in buffered.Conn, known_findings.json)."),
  "C02": dict(level="exploration", ref="§5 C02",
    text="Frame sequences packetised by an independent RFC 6184/7798 packetiser (single/STAP-A/AP/FU-A/FU, tape-chosen grouping and fragment sizes), H.264/H.265, cache_gop on/off, RTP- and FLV-level joiners attaching at tape-chosen points racing the publisher; oracle: a cut k inside the attach window exists with received = params(k) ++ gop(k) ++ published[k:] per a reference cache computed from the sender's NAL types; FLV header copies re-stamped to the first replayed tag.",
    note="Trusted: as C01, plus the reference packetiser/classifier (harness/oracle). Parameter sets are never fragmented and precede their key frame in generated streams (stated in evidence)."),
@@ -22,7 +22,7 @@ claimed.update({
    note="Trusted: as C01. The limit 1000 is taken from the property text. Stalls are modelled at the Consumer interface, not on a socket."),
  "C05": dict(level="exploration", ref="§5 C05",
    text="2-3 actors issuing register / unregister / lookup / attach / stop over two paths in many spellings with schedule points inside Regist and Unregist; recorded history checked for linearizability with porcupine against a sequential registry model, quiescent Count/Infos/lookup observations, and an end-of-run oracle after 16 simulated minutes for retirement and idle-close (simsched jobs on the fake clock).",
-   note="Trusted: as C01, porcupine v1.3.0, the sequential model in scen/c05.go. Count/Infos are only observed at quiescent points. DELETE /api/v1/streams is exercised at service level (see DESIGN.md)."),
+   note="Trusted: as C01, porcupine v1.3.0, the sequential model in scen/c05.go. Count/Infos are only observed at quiescent points. The api family drives DELETE /api/v1/streams/{path}, listings and real publisher/player sessions through the real mux."),
 })
 claimed.update({
  "C18": dict(level="fault_enumeration", ref="§5 C18",
@@ -37,10 +37,10 @@ claimed.update({
 claimed.update({
  "C12": dict(level="exploration", ref="§5 C12",
    text="Scripts of up to 10 requests over the property's method alphabet (valid and invalid transports, paths, SDP bodies) on a simulated RTSP/TCP connection to the real session code, delivered in chunks, optionally pipelined or cut by a disconnect at an arbitrary byte, while a publisher feeds the stream; oracle = reference automaton (must-2xx / must-455 / must-not-2xx per state and method) plus per-request rules: one response each with echoed CSeq and constant session id, no frame before a successful PLAY, no stream registered before a successful RECORD, everything released after TEARDOWN or disconnect.",
-   note="Trusted: sim.Conn TCP model, the reference automaton in scen/c12.go (only outcomes fixed by the statement are demanded), the harness publisher. ws-rtsp and WSP transports: see DESIGN.md for what is covered."),
+   note="Trusted: sim.Conn TCP model, the reference automaton in scen/c12.go (only outcomes fixed by the statement are demanded), the harness publisher. Families ws-rtsp and wsp run the same scripts over one WebSocket / over the WSP control+data channels (disconnect = close between requests; WSP is play-only: ANNOUNCE refused, RECORD 455)."),
  "C13": dict(level="exploration", ref="§5 C13",
    text="A playing RTSP/TCP session (video+audio interleaved) with 20-80 packets of 13..65000 bytes and fake-clock gaps, while the client fires OPTIONS/PLAY/GET_PARAMETER at tape-chosen moments; every server-side connection write, the point between frame prefix and payload, and every contended lock acquisition is a schedule point; an independent reader parses the whole server output: complete responses and complete frames only, frames equal published packets contiguously per channel, one response per request.",
-   note="Trusted: sim.Conn, token scheduler, BeforeLock modelling of the per-session write mutex (reach probe lock.contended must be >0). WebSocket transports: see DESIGN.md."),
+   note="Trusted: sim.Conn, token scheduler, BeforeLock modelling of the per-session write mutex (reach probe lock.contended must be >0). The websocket family checks the message rule on ws-rtsp and on the WSP control/data channels (gorilla client on the other end)."),
  "C19": dict(level="exploration", ref="§5 C19",
    text="Real listener.Listener with the real RTSP and HTTP matchers over a simulated root listener; 1-3 connections whose first line comes from the method x target x version grammar or is clearly neither, written in tape-chosen segments with fake-clock pauses around the 15 s sniff timeout, read by stub services with 1..8192-byte buffers; oracle: reference classifier from the statement, byte stream identical and complete from the first byte, exactly one service or closed.",
    note="Trusted: sim.Listener/sim.Conn, the reference classifier; first lines the statement leaves undefined (known method name followed by other letters; first bytes incomplete at the timeout) are not judged for routing, only for byte integrity."),
@@ -74,7 +74,7 @@ claimed.update({
 claimed.update({
  "C11": dict(level="exploration", ref="§5 C11",
    text="Authentication on; four users with pull/push rights over four streams; 0-2 administrator edits through the real API (narrow, widen, delete, re-create, password change); then 3-6 requests out of HTTP-FLV, HLS playlist and segment, RTSP digest play and publish, ws-rtsp upgrade plus a publish attempt through the WebSocket session, management API calls, token lifecycle (refresh token as access token, superseded token, invented token, expiry after 2 h on the fake clock) and an attacker deriving tokens from the identifiers disclosed to an unauthenticated client. Oracle: reference monitor decision(user, action, path) on the table as last saved with an independent pattern matcher: media / publication / management happens iff allowed (false grants and false refusals are both violations).",
-   note="Trusted: the reference matcher (harness/oracle/authz.go, written from docs/config.md and the property text), the harness HTTP/1.1 loop and gorilla WebSocket client over sim.Conn, the fake clock for token expiry. WSP and WebSocket-FLV entry points are not driven yet; TLS is not simulated; the clock only moves forward."),
+   note="Trusted: the reference matcher (harness/oracle/authz.go, written from docs/config.md and the property text), the harness HTTP/1.1 loop and gorilla WebSocket client over sim.Conn, the fake clock for token expiry. A ws-rtsp session opened before the edits is used after them. WSP and WebSocket-FLV entry points are not driven; TLS is not simulated; the clock only moves forward."),
 })
 pending = {
 }
